@@ -277,7 +277,7 @@ def main():
                   [{'op': 'merge', 'c': 1}]
             emit(run_api(MCM, {'ops': ops, 'njobs': 2, 'jobk': 0, 'jobmv': -1}, tid, 'unittest', rng, mt=True))
             # (3) random larger operation sequences, each in two orders of the observation stream
-            n = 120 if tier == 'quick' else 3000
+            n = 120 if tier == 'quick' else 1500
             for k in range(n):
                 scn, locs = random_api(rng)
                 # resolve 'del' against a location that certainly exists at that moment: only right after the merges, no prune before
@@ -306,7 +306,7 @@ def main():
             from singlecellmultiomics.bamProcessing.bamToMethylationCalls import get_methylation_count_matrix as GMC
             workdir = os.path.join(os.getcwd(), 'x04_bams')
             os.makedirs(workdir, exist_ok=True)
-            nb = 25 if tier == 'quick' else 600
+            nb = 25 if tier == 'quick' else 250
             for _ in range(nb):
                 tid += 1
                 path, contigs, recs = random_bam_case(rng, tid, workdir)
